@@ -87,3 +87,63 @@ Print Assumptions C11_public_paths.
 Theorem C11_public_globs : forall p, glob_public p = Some true -> is_public p = true.
 Proof. exact glob_public_is_public. Qed.
 Print Assumptions C11_public_globs.
+
+(** ** Start-up: who decides that authentication is on
+
+    optionalAuth computes [authRequired := globalContext.auth != nil &&
+    globalContext.auth.authRequired()]: with no Auth object every route is
+    served to anybody.  [boot k b] is home.go's [run] around [initUsers] /
+    [InitAuth]: [b] says whether users are configured and whether bbolt can
+    open data/sessions.db, [k] holds the five syntactic facts tools/routes
+    reads off the source ([Gen.Routes.startup]). *)
+Theorem C11_startup_fails_closed : forall k b,
+  boot_code_ok k = true -> b_users b = true -> b_db_opens b = false -> boot k b = BootFatal.
+Proof. exact startup_fails_closed. Qed.
+Print Assumptions C11_startup_fails_closed.
+
+(** Users configured: nothing is served, or every unauthenticated request for
+    a non-public path is refused by every chain that contains optionalAuth,
+    in whatever state the session database was found. *)
+Theorem C11_startup_then_guarded : forall (A R : Type) k b,
+  boot_code_ok k = true -> b_users b = true ->
+  boot k b = BootFatal \/
+  forall e ws (w : world A) r,
+    env_after (boot k b) e -> In WOptionalAuth ws ->
+    is_public (r_path r) = false -> authenticated e (w_sess w) r = false ->
+    exists w' (a : answer R), blocks (apply_chain ws) e w r w' a /\ session_effect e w r w'.
+Proof. exact (@startup_then_guarded). Qed.
+Print Assumptions C11_startup_then_guarded.
+
+Theorem C11_startup_serves_with_auth : forall k b p u,
+  boot_code_ok k = true -> boot k b = BootServe p u -> b_db_opens b = true /\ p = true /\ u = b_users b.
+Proof. exact startup_serves_with_auth. Qed.
+Print Assumptions C11_startup_serves_with_auth.
+
+(** The current source has the five facts. *)
+Theorem C11_startup_code : boot_code_ok Gen.Routes.startup = true.
+Proof. exact startup_code_ok. Qed.
+Print Assumptions C11_startup_code.
+
+(** Each slip (nil error from the failure branch, no stop on the error, no nil
+    check) opens every route of a configuration with users. *)
+Example C11_startup_slips_refuted :
+  let b := {| b_users := true; b_db_opens := false |} in
+  Forall (fun k =>
+    boot k b = BootServe false false /\
+    let e := with_boot false false ex_env in
+    env_after (boot k b) e /\
+    authenticated e (w_sess ex_world) (ex_req CNone) = false /\
+    snd (apply_chain (http_register_chain str_POST) ex_handler e ex_world (ex_req CNone)) = AHandler tt)
+  [slip_ret_nil_err; slip_no_fatal; slip_no_nil_check].
+Proof. exact startup_slips_refuted. Qed.
+Print Assumptions C11_startup_slips_refuted.
+
+Example C11_startup_premises_satisfiable :
+  let k := {| bc_nil_checked := true; bc_fail_ret_err := true; bc_run_fatal := true; bc_fatal_exits := true; bc_assigns_ok := true |} in
+  boot_code_ok k = true /\
+  boot k {| b_users := true; b_db_opens := false |} = BootFatal /\
+  boot k {| b_users := true; b_db_opens := true |} = BootServe true true /\
+  boot k {| b_users := false; b_db_opens := true |} = BootServe true false /\
+  env_after (boot k {| b_users := true; b_db_opens := true |}) ex_env.
+Proof. exact startup_premises_satisfiable. Qed.
+Print Assumptions C11_startup_premises_satisfiable.
